@@ -347,6 +347,8 @@ def ob_remove_pbc(tier):
     LIM = 48
     # (the rotated orthorhombic cell 6 was tried as well: z3 answers 'unknown' on its mixed floor / quadratic constraints
     #  within 120 s; its shortest-image clause is decided for single displacements in sx_displacement)
+    # (each case needs a worker process of its own - spec_C15 gives this obligation 3 parts: in one process the second
+    #  query inherits solver state from the first and comes back 'unknown')
     for bi in (0,) if tier == "quick" else (0, 1):
         for stack, which in ((False, 0),):        # stacks of models: the two-model formula does not finish (stated in DESIGN)
             m = 2 if stack else 1
